@@ -113,6 +113,14 @@ type Scenario struct {
 	CutCrash bool `json:"cutcrash,omitempty"`
 	// CloseBeforeCrash2: the appended save returned (and the WAL was closed) before the second image is taken
 	CloseBeforeCrash2 bool `json:"close2,omitempty"`
+	// Corrupt scenarios of the model: word X of file Seg damaged in the way Kind says; NonPrefix = the model's
+	// as-built prediction that the damage is accepted and yields a non-prefix result
+	Cor struct {
+		Seg  int    `json:"seg"`
+		X    int    `json:"x"`
+		Kind string `json:"kind"`
+	} `json:"cor"`
+	NonPrefix bool `json:"nonprefix,omitempty"`
 }
 
 // ---------------------------------------------------------------- deterministic payloads
@@ -646,6 +654,7 @@ type Stats struct {
 	Violations int            `json:"violations"`
 	Divergence int            `json:"divergences"`
 	Skips      int            `json:"skips"`
+	Ambiguity  int            `json:"ambiguity"`
 	Labels     map[string]int `json:"labels"`
 	Samples    []interface{}  `json:"samples"`
 }
@@ -675,6 +684,8 @@ func (s *Sink) finding(f Finding) {
 		s.stats.Divergence++
 	case "skip":
 		s.stats.Skips++
+	case "ambiguity":
+		s.stats.Ambiguity++
 	}
 	key := f.Class + "|" + f.Kind + "|" + f.Sig
 	s.seen[key]++
@@ -978,7 +989,9 @@ func replayScenario(sink *Sink, sc *Scenario, work string, seed uint64) {
 			} else if so.Err == "" {
 				k := matchPrefixFrom(wr.Hist, len(wr.Hist), so.Hs, so.Ents, true, true, s.Index)
 				if k < 0 && matchPrefixMode(wr.Hist, len(wr.Hist), so.Hs, so.Ents, true, true, s.Index, true) >= 0 {
-					sink.finding(Finding{ID: sc.ID, Class: "violation", Kind: "stale-superseded-entry", Detail: fmt.Sprintf("ReadAll opened at snapshot %d returned %d entries (last %d) including an entry that a later save had overwritten (the overwrite started at or below the snapshot index, which ReadAll skips)", s.Index, so.Nents, so.Last), Sig: "read-at-snap/stale-superseded-entry", Scenario: sc, Real: rv})
+					// ambiguity set (DESIGN 2.4): the entry WAS written and raft overwrites it again; counted, not flagged
+					sink.label("ambiguity.stale-superseded-entry")
+					sink.finding(Finding{ID: sc.ID, Class: "ambiguity", Kind: "stale-superseded-entry", Detail: fmt.Sprintf("ReadAll opened at snapshot %d returned %d entries (last %d) including an entry that a later save had overwritten (the overwrite started at or below the snapshot index, which ReadAll skips)", s.Index, so.Nents, so.Last), Sig: "read-at-snap/stale-superseded-entry", Scenario: sc, Real: rv})
 				} else if k < 0 {
 					sink.finding(Finding{ID: sc.ID, Class: "violation", Kind: "not-prefix", Detail: fmt.Sprintf("ReadAll opened at snapshot %d returned hs %v and %d entries (last %d): no prefix of the written records gives that", s.Index, so.Hs, so.Nents, so.Last), Sig: "read-at-snap/not-prefix", Scenario: sc, Real: rv})
 				} else if k < rv.Dur {
@@ -1079,7 +1092,8 @@ func replayScenario(sink *Sink, sc *Scenario, work string, seed uint64) {
 			a.Hs = [3]uint64{a.Term, 1, rc.Out.Hs[2]}
 		}
 	}
-	h, _, err := applyOp(w2, sc.App[0], nops+1, r2, 1, &dummy)
+	// padding 0..3 only: the record size then does not depend on the length of the CRC varint
+	h, _, err := applyOp(w2, sc.App[0], nops+1, r2, 0, &dummy)
 	if err != nil {
 		sink.finding(Finding{ID: sc.ID, Class: "violation", Kind: "writer-error", Detail: "append after recovery: " + err.Error(), Sig: "append/writer-error", Scenario: sc, Real: rv})
 		return
@@ -1094,6 +1108,32 @@ func replayScenario(sink *Sink, sc *Scenario, work string, seed uint64) {
 	w2 = nil
 	names2 := after2.Names
 	data2 := cloneData(names2, after2.Data)
+	if !sc.NoPred && len(sc.App[0].Ws) > 0 {
+		// the appended records must have the prescribed sizes
+		_, fr2, _, _ := parseSet(names2, data2)
+		var got []int
+		for _, n := range names2 {
+			for _, f := range fr2[n] {
+				if f.Typ == tEntry {
+					got = append(got, f.Words)
+				}
+			}
+		}
+		want := sc.App[0].Ws
+		okl := len(got) >= len(want)
+		if okl {
+			// the appended entries are the last entry frames written
+			for i := range want {
+				if got[len(got)-len(want)+i] != want[i] {
+					okl = false
+				}
+			}
+		}
+		if !okl {
+			sink.finding(Finding{ID: sc.ID, Class: "skip", Kind: "layout", Detail: "appended record sizes differ from the prescribed ones", Sig: "layout2"})
+			return
+		}
+	}
 	t2 := names2[len(names2)-1]
 	if t2 == ptail && sc.Lost2Seed != 0 {
 		_, e, _, _ := parseFile(data2[t2], 0)
@@ -1146,7 +1186,9 @@ func replayScenario(sink *Sink, sc *Scenario, work string, seed uint64) {
 			sink.finding(Finding{ID: sc.ID, Class: "divergence", Kind: "prediction", Detail: strings.Join(diffs, "; "), Sig: "prediction/epoch2", Scenario: sc, Real: rv})
 		}
 	}
-	os.RemoveAll(img2)
+	if os.Getenv("WALSIM_KEEP") == "" {
+		os.RemoveAll(img2)
+	}
 }
 
 func clip(s string) string {
@@ -1154,26 +1196,6 @@ func clip(s string) string {
 		return s[:i]
 	}
 	return s
-}
-
-// crashAfterReturn: the TLC scenario crashed in the "write" phase (after the last call returned):
-// last op not synced (buffered) or ended with a completed cut (tail file is the new segment).
-func crashAfterReturn(sc *Scenario) bool {
-	last := sc.Ops[len(sc.Ops)-1]
-	if !last.Sync {
-		return true
-	}
-	if last.Cut {
-		// a completed cut shows one more file than the number of cuts before it + 1
-		cuts := 0
-		for _, o := range sc.Ops {
-			if o.Cut {
-				cuts++
-			}
-		}
-		return sc.Tail == cuts+1
-	}
-	return false
 }
 
 func headEnd(b []byte) int64 {
@@ -1257,7 +1279,7 @@ func layoutMatches(sc *Scenario, wr *WriteResult) bool {
 func main() {
 	debug.SetGCPercent(200)
 	if len(os.Args) < 2 {
-		fmt.Fprintln(os.Stderr, "usage: walsim replay|random|corrupt|snap ...")
+		fmt.Fprintln(os.Stderr, "usage: walsim replay|random|corrupt|snap|snapreplay|one -out F -work D [-in F] [-seed N] ...")
 		os.Exit(3)
 	}
 	cmd := os.Args[1]
@@ -1312,7 +1334,11 @@ func main() {
 					if *trace {
 						fmt.Println("BEGIN", sc.ID)
 					}
-					replayScenario(sink, &sc, *work, *seed)
+					if sc.Cor.Kind != "" && sc.Cor.Kind != "none" {
+						replayCorruptScenario(sink, &sc, *work, *seed)
+					} else {
+						replayScenario(sink, &sc, *work, *seed)
+					}
 				}
 				i++
 			}
@@ -1320,6 +1346,9 @@ func main() {
 				break
 			}
 		}
+	case "one":
+		// re-run the case recorded in a replay artefact written by checks/C16.py (/verif/replay/C16/vNNN.json)
+		runOne(sink, *work, *seed, *in)
 	case "random":
 		runRandom(sink, *work, *seed, *shard, *nshard, *n, *trace)
 	case "corrupt":
@@ -1336,5 +1365,7 @@ func main() {
 	if traceW != nil {
 		traceW.Flush()
 	}
-	os.RemoveAll(*work)
+	if os.Getenv("WALSIM_KEEP") == "" {
+		os.RemoveAll(*work)
+	}
 }
